@@ -150,6 +150,10 @@ class World:
             answers = [(fam, host)]
         else:
             ent = self.hosts.get(host)
+            if ent is not None and ent.get('delay_us'):
+                # a slow resolver: the answer (or the error) comes after this long; the C library call has no time-out of the tool's choosing
+                self.fired('slow_resolver')
+                k.sleep(int(ent['delay_us']))
             if ent is None or ent.get('gaierror'):
                 raise _socket.gaierror(-2, 'Name or service not known')
             for f, ip in ent.get('answers', []):
